@@ -11,7 +11,8 @@ ROUTES = ('resize', 'resize_dtype', 'ctor_from_fxp', 'ctor_like', 'like_method',
 
 def conv_formats(tier):
     if tier == 'quick':
-        return [(True, 8, 2), (False, 8, 3), (True, 3, 0), (False, 2, 2), (True, 16, 17), (True, 12, -2), (False, 31, 10), (True, 52, 20), (True, 1, 0)]
+        return [(True, 8, 2), (False, 8, 3), (True, 3, 0), (False, 2, 2), (True, 16, 17), (True, 12, -2), (False, 31, 10), (True, 52, 20), (True, 1, 0),
+                (False, 8, 2), (False, 4, 0), (True, 7, 3)]
     out = []
     for s in (True, False):
         for n, fr in ((1, (0, 9)), (3, (-8, 1)), (6, (0, 3, 14)), (8, (-1, 4, 8)), (16, (0, 17)), (31, (10, -8)), (52, (0, 26, 60))):
